@@ -3,6 +3,7 @@ package values
 import (
 	"encoding/json"
 	"fmt"
+	"math"
 	"reflect"
 	"strconv"
 	"time"
@@ -59,14 +60,15 @@ func convertValueToFloat(value any, typ reflect.Type) (float64, error) {
 	switch value := value.(type) {
 	// case int is handled by rv.Convert(typ) in Convert function
 	case string:
+		// ("nan", "inf", "infinity" parse, but they do not spell a number)
 		v, err := strconv.ParseFloat(value, 64)
-		if err != nil {
+		if err != nil || math.IsNaN(v) || math.IsInf(v, 0) {
 			return 0, conversionError("", value, typ)
 		}
 		return v, nil
 	case json.Number:
 		v, err := strconv.ParseFloat(value.String(), 64)
-		if err != nil {
+		if err != nil || math.IsNaN(v) || math.IsInf(v, 0) {
 			return 0, conversionError("", value, typ)
 		}
 		return v, nil
